@@ -77,7 +77,7 @@ func init() {
 }
 
 func genC19(tier string, r *rng) {
-	mixes := []string{"UHDMZK", "U", "D", "M", "UD", "MZ", "UUDDM", "HZ", "K", "KM"}
+	mixes := []string{"UHDMZKP", "U", "D", "M", "UD", "MZ", "UUDDM", "HZ", "K", "KM", "P", "PM"}
 	type cfg struct{ n, procs, rounds int }
 	grid := []cfg{{2, 1, 2}, {2, 4, 2}, {8, 1, 2}, {8, 4, 2}, {8, 16, 2}, {16, 16, 1}}
 	if tier == "thorough" {
@@ -86,7 +86,7 @@ func genC19(tier string, r *rng) {
 	i := 0
 	for _, g := range grid {
 		for mi, mix := range mixes {
-			if tier == "quick" && (mi+g.n+g.procs)%3 != 0 && mix != "UHDMZK" && !(mix == "K" && g.n >= 8) {
+			if tier == "quick" && (mi+g.n+g.procs)%3 != 0 && mix != "UHDMZKP" && !(mix == "K" && g.n >= 8) && !(mix == "P" && g.n >= 8) {
 				continue
 			}
 			i++
@@ -97,7 +97,7 @@ func genC19(tier string, r *rng) {
 		for j := 0; j < 60; j++ {
 			mix := ""
 			for k := 0; k < 1+r.intn(6); k++ {
-				mix += string("UHDMZK"[r.intn(6)])
+				mix += string("UHDMZKP"[r.intn(7)])
 			}
 			run(fmt.Sprintf("conc %d %d %d %s %d", []int{2, 8, 64}[r.intn(3)], []int{1, 4, 16}[r.intn(3)], r.intn(1000000), mix, 1+r.intn(3)))
 		}
